@@ -237,10 +237,20 @@ func chosen(tr []vrt.Choice) []int {
 
 func runWorker(suites []*Suite, i, n int) {
 	enc := json.NewEncoder(out)
+	var mine []*Suite
 	for k, s := range suites {
-		if k%n != i {
-			continue
+		if k%n == i {
+			mine = append(mine, s)
 		}
+	}
+	// the worker's time budget is shared fairly: every suite may use an equal share of what is left
+	end := deadline
+	for k, s := range mine {
+		left := time.Until(end)
+		if left < 0 {
+			left = 0
+		}
+		deadline = time.Now().Add(left / time.Duration(len(mine)-k))
 		st := runSuite(s)
 		enc.Encode(st)
 	}
